@@ -111,14 +111,16 @@ loop:
 	return res
 }
 
-// hangFrame finds the worker goroutine in a full dump and returns its first zcrypto frame.
+// hangFrame finds the worker goroutine in a full dump and returns its outermost zcrypto frame
+// (the innermost one depends on where inside a loop the dump was taken and would not be a stable key).
 func hangFrame(dump string) string {
 	for _, g := range strings.Split(dump, "\n\n") {
 		if !strings.Contains(g, "core.Guard") && !strings.Contains(g, "guardBatch") {
 			continue
 		}
-		if m := reZFrame.FindStringSubmatch(g); m != nil {
-			return strings.TrimPrefix(m[1], "github.com/zmap/zcrypto/")
+		if m := reZFrame.FindAllStringSubmatch(g, -1); len(m) > 0 {
+			f := strings.TrimPrefix(m[len(m)-1][1], "github.com/zmap/zcrypto/")
+			return strings.TrimSuffix(f, ".")
 		}
 	}
 	return ""
